@@ -202,7 +202,14 @@ def evaluate(
             if not propositionally_unsatisfiable(
                 reduce(Formula.__and__, qfr_free_assumptions, sc.true())
             ):
-                return ThreeValuedTruth.false()
+                # The formula is not valid. It is only definitely false if it cannot
+                # hold for any interpretation of the predicates that stand in for
+                # quantifiers over open trees; otherwise, the result depends on how
+                # the open leaves are expanded.
+                if is_valid(z3.Not(smt_formula)).is_true():
+                    return ThreeValuedTruth.false()
+
+                return ThreeValuedTruth.unknown()
         else:
             assert smt_result.is_true()
 
